@@ -155,14 +155,29 @@ func genHist(t *rapid.T) HistCase {
 		N:        rapid.IntRange(1, 4).Draw(t, "n")}
 	k := rapid.IntRange(3, 25).Draw(t, "nops")
 	for i := 0; i < k; i++ {
-		kind := rapid.SampledFrom([]string{"set", "set", "down", "up", "request", "request", "request", "healthcheck", "break", "mend", "sick", "well"}).Draw(t, "kind")
+		kind := rapid.SampledFrom([]string{"set", "set", "down", "up", "request", "request", "request", "healthcheck", "break", "mend", "sick", "well", "slowcheck"}).Draw(t, "kind")
 		op := Op{Kind: kind}
 		switch kind {
 		case "set":
 			op.EP = rapid.IntRange(0, c.N-1).Draw(t, "ep")
 			op.Status = string(rapid.SampledFrom(gen.Statuses).Draw(t, "status"))
-		case "down", "up", "break", "mend", "sick", "well":
+		case "down", "up", "break", "mend", "sick", "well", "slowcheck":
 			op.EP = rapid.IntRange(0, c.N-1).Draw(t, "ep")
+		}
+		if kind == "slowcheck" && c.N >= 2 && rapid.IntRange(0, 3).Draw(t, "prepared") > 0 {
+			// most of the time the op comes with the situation it needs: Y the only routable endpoint,
+			// its neighbour X reachable but out of rotation, the others unreachable
+			y, x := op.EP, (op.EP+1)%c.N
+			for j := 0; j < c.N; j++ {
+				if j != y {
+					c.Ops = append(c.Ops, Op{Kind: "set", EP: j, Status: string(domain.StatusOffline)})
+				}
+				if j != y && j != x {
+					c.Ops = append(c.Ops, Op{Kind: "down", EP: j})
+				}
+			}
+			c.Ops = append(c.Ops, Op{Kind: "up", EP: y}, Op{Kind: "well", EP: y}, Op{Kind: "mend", EP: y}, Op{Kind: "set", EP: y, Status: string(domain.StatusHealthy)},
+				Op{Kind: "up", EP: x}, Op{Kind: "well", EP: x})
 		}
 		c.Ops = append(c.Ops, op)
 	}
@@ -345,6 +360,64 @@ func runHist(c HistCase) []ev.Violation {
 					vs = append(vs, ev.Violation{Sig: "connection-failure-mid-response-endpoint-still-routable", Detail: fmt.Sprintf("engine=%s balancer=%s: endpoint %d reset the connection after the head and 100 body bytes of its response (client status %d), but it is still %q; history %v", c.Engine, c.Balancer, i, resp.Status, st[names[i]], trace)})
 				}
 			}
+			sync()
+		case "slowcheck":
+			// a health-check round that is still waiting for a slow endpoint X while endpoint Y, already
+			// probed healthy in this round, stops accepting connections and a client request fails on
+			// it: the round's earlier verdict for Y must not bring Y back when the round ends
+			y := op.EP
+			x := (op.EP + 1) % c.N
+			ready := c.N >= 2 && up[y] && up[x] && !sick[y] && !broken[y] && status[y] == domain.StatusHealthy && failedChecks[y] == 0 && failedChecks[x] < 3
+			for i := range status {
+				if i != y && gen.IsRoutable(string(status[i])) {
+					ready = false // the failing request must be dispatched to Y
+				}
+				if i != y && i != x && up[i] && !sick[i] {
+					ready = false // ... and the round must not bring anybody else back before it
+				}
+			}
+			if !ready {
+				trace = append(trace, "slowcheck(skipped)")
+				continue
+			}
+			hb := make([]int64, c.N)
+			for i := 0; i < c.N; i++ {
+				hb[i] = r.Raw[i].HealthHits()
+			}
+			r.Raw[x].HealthDelayMs.Store(400)
+			roundDone := make(chan error, 1)
+			go func() { roundDone <- r.S.Health.RunHealthCheck(context.Background(), false) }()
+			probed := hx.Poll(3*time.Second, 2*time.Millisecond, func() bool { return r.Raw[y].HealthHits() > hb[y] })
+			time.Sleep(20 * time.Millisecond) // Y's verdict is on its way into the repository
+			r.Raw[y].Close()
+			up[y] = false
+			resp, rerr := doRequest(r, fmt.Sprintf("s%d-slow", step))
+			mid := r.S.Statuses()[names[y]]
+			cerr := <-roundDone
+			r.Raw[x].HealthDelayMs.Store(0)
+			for i := 0; i < c.N; i++ {
+				own[i] += r.Raw[i].HealthHits() - hb[i]
+			}
+			if !probed || rerr != nil || cerr != nil {
+				rec.Inconclusive(fmt.Sprintf("slowcheck: probed=%v request=%v round=%v", probed, rerr, cerr))
+				return nil
+			}
+			now := r.S.Statuses()[names[y]]
+			trace = append(trace, fmt.Sprintf("slowcheck(y=%d,x=%d)->request %d, y %s then %s", y, x, resp.Status, mid, now))
+			rec.Class("history/slow-round-overlaps-a-proxy-detected-failure")
+			if !gen.IsRoutable(string(mid)) && gen.IsRoutable(string(now)) {
+				vs = append(vs, ev.Violation{Sig: "finished-round-readmits-endpoint-marked-failed-during-it", Detail: fmt.Sprintf("engine=%s balancer=%s: endpoint %d was probed healthy early in a health-check round, then refused a client request (status %d) and was marked %q; when the round ended (it had been waiting for endpoint %d) the endpoint was %q again without a new probe; history %v", c.Engine, c.Balancer, y, resp.Status, mid, x, now, trace)})
+			}
+			for i := 0; i < c.N; i++ {
+				switch {
+				case i == y:
+				case !up[i] || sick[i]:
+					failedChecks[i]++
+				case failedChecks[i] < 3 || r.S.Statuses()[names[i]] == domain.StatusHealthy:
+					failedChecks[i] = 0
+				}
+			}
+			hadTransition = true
 			sync()
 		case "healthcheck":
 			hb := make([]int64, c.N)
